@@ -46,3 +46,64 @@ pub fn pattern(start: usize, len: usize) -> Vec<u8> {
 pub fn bytes_dot(b: &[u8]) -> String {
     b.iter().map(|x| x.to_string()).collect::<Vec<_>>().join(".")
 }
+
+/// One application half polled the way real tasks poll it: EVERY call gets a fresh waker (the half may have
+/// moved to another task, or sit in a FuturesUnordered / select!), so a registration that is not refreshed
+/// keeps a waker nobody listens to any more.  A wake-up counts as `W`/`R` only if it reaches the waker of
+/// the most recent call that returned Pending (or of a later call); if only older wakers fire it is
+/// reported as stale (`w`/`r`).
+pub struct WakerSet {
+    all: Vec<Arc<CountingWaker>>,
+    cur: Option<usize>,
+}
+
+impl WakerSet {
+    pub fn new() -> Self {
+        WakerSet { all: Vec::new(), cur: None }
+    }
+    /// the waker for the next call
+    pub fn fresh(&mut self) -> Waker {
+        let (c, w) = counting_waker();
+        self.all.push(c);
+        w
+    }
+    /// the call that used the last waker handed out returned Pending
+    pub fn returned_pending(&mut self) {
+        if let Some(last) = self.all.last() {
+            // a call that woke its own waker before returning Pending only yields (cooperative budget): it will be
+            // polled again and has not parked on anything
+            if last.0.load(Ordering::SeqCst) == 0 {
+                self.cur = Some(self.all.len() - 1);
+            }
+        }
+    }
+    /// (wake-ups that reached the current waker, wake-ups that reached only older ones)
+    pub fn take(&mut self) -> (usize, usize) {
+        let mut cur = 0;
+        let mut stale = 0;
+        for (i, c) in self.all.iter().enumerate() {
+            let n = c.take();
+            // a call that returned Ready may have registered its waker too (a read that drains the queue does):
+            // only a waker OLDER than the last Pending call's is stale
+            if self.cur.map_or(true, |c| i >= c) {
+                cur += n;
+            } else {
+                stale += n;
+            }
+        }
+        (cur, stale)
+    }
+    /// letters for the observation: `up` per current wake-up, one `low` if only stale wakers fired
+    pub fn letters(&mut self, up: char, low: char, at_most_one: bool) -> String {
+        let (cur, stale) = self.take();
+        let mut s = String::new();
+        let n = if at_most_one { cur.min(1) } else { cur };
+        for _ in 0..n {
+            s.push(up);
+        }
+        if cur == 0 && stale > 0 {
+            s.push(low);
+        }
+        s
+    }
+}
